@@ -35,7 +35,7 @@ REQUIRED = {"line.selects_entity_scenarios": {"quick": 8000, "thorough": 500000}
             "setup_teardown.never_skipped": {"quick": 40, "thorough": 2000}}
 REQUIRED_SEEN = {"entity_kind_addressed": ["feature", "rule", "outline", "row", "scenario", "line0", "other_line", "beyond_end"],
                  "argument_list_shape": ["DL", "LD", "LL", "DLD"], "wildcard_listfile_place": ["working_directory", "sub_directory"],
-                 "name_selection_shape": ["pattern_matches_the_empty_name_of_an_untitled_scenario", "together_with_a_file_location"]}
+                 "name_selection_shape": ["pattern_matches_the_empty_name_of_an_untitled_scenario", "together_with_a_file_location", "in_a_dry_run"]}
 EXHAUSTIVE = True
 EXHAUSTIVE_SCOPE = "every line number 0..last+2 of every generated document"
 NSHARDS = {"quick": 16, "thorough": 16}
@@ -407,7 +407,28 @@ def run(spec, mon):
                 def rec(state, context, name, elem, tag):
                     if name == "before_scenario":
                         entered.append(elem.name)
-                obs = lab.run({"features": [], "outcomes": {}}, args=["--name=%s" % p for p in pats], features=feats, hook_plugins=[rec])
+                dry = rng.random() < 0.25
+                obs = lab.run({"features": [], "outcomes": {}}, args=["--name=%s" % p for p in pats] + (["--dry-run"] if dry else []),
+                              features=feats, hook_plugins=[rec])
+                if dry and obs.escaped is None:
+                    # a dry run executes nothing, the selection is the same: what is not addressed is reported skipped, what is
+                    # addressed is not
+                    mon.seen("name_selection_shape", "in_a_dry_run")
+                    scs = list(feats[0].walk_scenarios())
+                    if len(scs) != len(names_all) or len(scs) != len(doc.all_ids):
+                        continue
+                    addressed_ = set(doc.expected(loc_line)[1]) if loc_line is not None else set(doc.all_ids)
+                    sts, ok = [], not entered
+                    for sc_, nm, sid in zip(scs, names_all, doc.all_ids):
+                        selected_ = sid in addressed_ and re.search("|".join(pats), nm) is not None
+                        st_ = sc_.status.name
+                        sts.append((nm, st_, selected_))
+                        if not selected_:
+                            ok = ok and st_ == "skipped"
+                        elif list(sc_.all_steps):           # (a scenario without any step has nothing a dry run could look at)
+                            ok = ok and st_ != "skipped"
+                    mon.check("name.selects_matching", ok, lambda: W(patterns=pats, location_line=loc_line, dry_run=True, statuses=sts))
+                    continue
                 mon.case(("name", doc.text, tuple(pats)), 0 < len(want) < len(names_all))
                 if obs.escaped is not None:
                     mon.check("name.selects_matching", False, lambda: W(patterns=pats, escaped=repr(obs.escaped)))
